@@ -4,7 +4,7 @@ open HailVerif HailVerif.DriverUtil HailVerif.Retry
 
 /-- exception syntax: `N` = None, `[f0,…,f17|OS|CAUSE]` with integer fields in the order of `Desc`
 (aiohttp status or -1, httpx status or -1, bodyRateLimit, bodyRetryOnce, gcpQuota, serverTimeout, serverDisconnected, timeoutError,
-connector, payloadNotCompleted, sslBadRecordMac, isOSError, errnoPresent, errno, gaierror, transientError, connReset, connRefused, numeric Retry-After header in seconds or -1) -/
+connector, ClientPayloadError message shape (-1 not one, 0 no args, 1 first arg not a str, 2 str without / 3 str with the marker text), sslBadRecordMac, isOSError, errnoPresent, errno, gaierror, transientError, connReset, connRefused, numeric Retry-After header in seconds or -1) -/
 partial def parseExc : List Char → Option (Exc × List Char)
   | 'N' :: r => some (.nil, r)
   | '[' :: r =>
@@ -21,7 +21,7 @@ partial def parseExc : List Char → Option (Exc × List Char)
             aiohttpStatus := if a < 0 then none else some a.toNat
             httpxStatus := if h < 0 then none else some h.toNat
             bodyRateLimit := b rl, bodyRetryOnce := b ro, gcpQuotaExceeded := b g, serverTimeout := b st,
-            serverDisconnected := b sd, timeoutError := b to, connector := b c, payloadNotCompleted := b p,
+            serverDisconnected := b sd, timeoutError := b to, connector := b c, payload := (if p < 0 then none else some (if p == 0 then .noArgs else if p == 1 then .notStr else .text (p == 3))),
             sslBadRecordMac := b ssl
             osErrno := if b isos then some (if b ep then some en else none) else none
             gaierror := b gai, transientError := b tr, connReset := b cr, connRefused := b cf
